@@ -1,0 +1,48 @@
+//go:build verif
+
+/*
+ * Cadence - The resource-oriented smart contract programming language
+ *
+ * Copyright Flow Foundation
+ *
+ * Licensed under the Apache License, Version 2.0 (the "License");
+ * you may not use this file except in compliance with the License.
+ * You may obtain a copy of the License at
+ *
+ *   http://www.apache.org/licenses/LICENSE-2.0
+ *
+ * Unless required by applicable law or agreed to in writing, software
+ * distributed under the License is distributed on an "AS IS" BASIS,
+ * WITHOUT WARRANTIES OR CONDITIONS OF ANY KIND, either express or implied.
+ * See the License for the specific language governing permissions and
+ * limitations under the License.
+ */
+
+package intervalst
+
+// Verification hooks (only compiled with the build tag `verif`; add-only, no behaviour change).
+
+// VerifCheck exports the unexported invariant checker `check` (subtree sizes and max endpoints).
+func (t *IntervalST[T]) VerifCheck() bool {
+	return t.check()
+}
+
+// VerifWalk reports the structure of the tree in pre-order:
+// `visit` is called for every node with the node's interval, value, cached max endpoint and
+// cached subtree size; `leaf` is called for every nil child.
+func (t *IntervalST[T]) VerifWalk(
+	visit func(interval Interval, value T, max Position, size int),
+	leaf func(),
+) {
+	var walk func(n *node[T])
+	walk = func(n *node[T]) {
+		if n == nil {
+			leaf()
+			return
+		}
+		visit(n.interval, n.value, n.max, n.n)
+		walk(n.left)
+		walk(n.right)
+	}
+	walk(t.root)
+}
